@@ -61,3 +61,13 @@ pub use default::*;
 pub use epoch::*;
 pub use guard::*;
 pub use pointers::*;
+
+#[cfg(feature = "circ_verif")]
+pub(crate) mod verif_exports {
+    pub use super::collector::{Collector, LocalHandle};
+    pub(crate) use super::internal::{
+        epoch_addr, queue_is_empty, set_bag_capacity, set_epoch, set_manual_interval,
+    };
+    pub(crate) use super::sync::list::{Entry, IsElement, IterError, List};
+    pub(crate) use super::sync::queue::Queue;
+}
